@@ -58,6 +58,8 @@ Judge ==
   /\ Report("C15_NewFrame", {j \in K : C[j].res = "ok" /\ ~C[j].o.newobj})
   /\ Report("C15_Idempotent", {j \in K : C[j].res = "ok" /\ ~C[j].o.idem})
   /\ Report("C15_RecheckWarnsNothing", {j \in K : C[j].res = "ok" /\ C[j].o.idemwarn})
+  /\ Report("C15_ConstructionRaisesExactly", {j \in K : \E q \in DOMAIN C[j].cons : (C[j].cons[q].res = "exc") # Rejects(C[j].f)})
+  /\ Report("C15_ConstructionOnlyAmpycloudError", {j \in K : \E q \in DOMAIN C[j].cons : C[j].cons[q].res = "exc" /\ C[j].cons[q].exc # "AmpycloudError"})
   /\ Report("N_rejected", {j \in K : Rejects(C[j].f)})
   /\ Report("N_alone", {j \in K : Cardinality({x \in {"nf", "em", "mi", "du", "nd", "vv"} :
                                      CASE x = "nf" -> R_NotFrame(C[j].f) [] x = "em" -> R_Empty(C[j].f) [] x = "mi" -> R_Missing(C[j].f)
